@@ -26,6 +26,9 @@ type getterInliner struct {
 	p    *Program
 	info *types.Info
 	pkg  *types.Package
+	// selSubst: replacement for a field selection of the function being shown (a parameter object's field as the
+	// parameter it stands for), nil when there is none
+	selSubst func(*ast.SelectorExpr) ast.Expr
 }
 
 func pureGetterExpr(info *types.Info, e ast.Expr) bool {
@@ -127,6 +130,12 @@ func (g *getterInliner) wants(e ast.Expr) bool {
 			if _, k := MethodLike(g.info, g.pkg, c); k >= 0 {
 				found = true
 			}
+			if callee := g.p.FuncOfObj(CalleeFunc(g.info, c)); callee != nil && callee.Pkg.Types == g.pkg && len(g.p.paramObjects(callee)) > 0 {
+				found = true
+			}
+		}
+		if sel, ok := n.(*ast.SelectorExpr); ok && g.selSubst != nil && g.selSubst(sel) != nil {
+			found = true
 		}
 		return !found
 	})
@@ -188,9 +197,60 @@ func (g *getterInliner) expr(e ast.Expr) (ast.Expr, bool) {
 	}
 	cl := &cloner{info: g.info}
 	cl.subst = func(x ast.Expr) ast.Expr {
+		if sel, isSel := x.(*ast.SelectorExpr); isSel && g.selSubst != nil {
+			if r := g.selSubst(sel); r != nil {
+				return r
+			}
+		}
 		c, ok := x.(*ast.CallExpr)
 		if !ok {
 			return nil
+		}
+		// a parameter object's literal as the arguments it stands for (then, possibly, the method form)
+		if callee := g.p.FuncOfObj(CalleeFunc(g.info, c)); callee != nil && callee.Pkg.Types == g.pkg && !c.Ellipsis.IsValid() {
+			if nargs, _, okPO := g.p.paramObjArgs(g.info, callee, c.Args); okPO {
+				// the literal's values and the other arguments, rewritten in turn
+				nc := &ast.CallExpr{Fun: c.Fun, Lparen: c.Lparen, Rparen: c.Rparen}
+				for _, a := range nargs {
+					a2, _ := g.expr(a)
+					nc.Args = append(nc.Args, a2)
+				}
+				if tv, has := g.info.Types[c]; has {
+					g.info.Types[nc] = tv
+				}
+				// method-like: the object parameter's index counts in the new argument list
+				if fid, isID := ast.Unparen(c.Fun).(*ast.Ident); isID {
+					if fn, _ := g.info.Uses[fid].(*types.Func); fn != nil {
+						if k := MethodLikeFunc(g.pkg, fn); k >= 0 {
+							// index of the k-th original parameter among the expanded ones
+							nk, i := 0, 0
+							for _, po := range g.p.paramObjects(callee) {
+								_ = po
+							}
+							exp := map[int]int{}
+							for _, po := range g.p.paramObjects(callee) {
+								exp[po.idx] = po.st.NumFields()
+							}
+							for i = 0; i < k; i++ {
+								if n, is := exp[i]; is {
+									nk += n
+								} else {
+									nk++
+								}
+							}
+							if _, is := exp[k]; !is && nk < len(nc.Args) {
+								sel := &ast.Ident{NamePos: fid.NamePos, Name: fid.Name}
+								g.info.Uses[sel] = fn
+								recv := nc.Args[nk]
+								rest := append(append([]ast.Expr{}, nc.Args[:nk]...), nc.Args[nk+1:]...)
+								nc.Fun = &ast.SelectorExpr{X: recv, Sel: sel}
+								nc.Args = rest
+							}
+						}
+					}
+				}
+				return nc
+			}
 		}
 		if fn, k := MethodLike(g.info, g.pkg, c); k >= 0 {
 			// `f(a, obj, b)` shown as `obj.f(a, b)`
